@@ -35,10 +35,10 @@ EXPLANATION = ('C08: the real circusd.main() on a generated configuration (1-2 w
                'exclusive operation; and the pid-file protocol over structured file contents. ')
 
 TRIGGERS = ('quit', 'quit_waiting', int(signal.SIGTERM), int(signal.SIGINT), int(signal.SIGQUIT))
-PRE = ('none', 'incr', 'restart', 'reload', 'kill', 'late_socket', 'on_demand', 'on_demand_death', 'changed_watcher')
+PRE = ('none', 'incr', 'restart', 'reload', 'kill', 'late_socket', 'on_demand', 'on_demand_death', 'changed_watcher', 'changed_socket')
 
 
-def _config(tmp, stubborn, two, warm, nosock=False, ondemand=False, check_delay=1):
+def _config(tmp, stubborn, two, warm, nosock=False, ondemand=False, check_delay=1, aux=False):
     if nosock:
         return '\n'.join(['[circus]', 'check_delay = 1', 'endpoint = tcp://127.0.0.1:5555', 'pubsub_endpoint = tcp://127.0.0.1:5556',
                           'pidfile = %s' % os.path.join(tmp, 'circusd.pid'), '',
@@ -51,6 +51,9 @@ def _config(tmp, stubborn, two, warm, nosock=False, ondemand=False, check_delay=
              '[socket:api]', 'host = 127.0.0.1', 'port = 0', '']
     if two:
         lines += ['[watcher:bg]', 'cmd = bgprog', 'numprocesses = 1', 'graceful_timeout = 0.4', '']
+    if aux:
+        # a managed unix socket that no watcher refers to (pre=changed_socket moves it to another path at run time)
+        lines += ['[socket:aux]', 'path = %s' % os.path.join(tmp, 'aux.sock'), '']
     return '\n'.join(lines)
 
 
@@ -71,7 +74,7 @@ def c08_shutdown(ti: int, pi: int, d: int, late: int, rep: int) -> bool:
     tmp = tempfile.mkdtemp(prefix='c08_')
     cfgpath = os.path.join(tmp, 'circus.ini')
     with open(cfgpath, 'w') as f:
-        f.write(_config(tmp, S.get('stubborn', False), S.get('two', True), S.get('warm', 0), nosock=(pre == 'late_socket'), ondemand=(pre in ('on_demand', 'on_demand_death')), check_delay=S.get('check_delay', 1)))
+        f.write(_config(tmp, S.get('stubborn', False), S.get('two', True), S.get('warm', 0), nosock=(pre == 'late_socket'), ondemand=(pre in ('on_demand', 'on_demand_death')), check_delay=S.get('check_delay', 1), aux=(pre == 'changed_socket')))
     old_argv = sys.argv
     state = {'fired': False, 'hung': False, 'pre_req': None, 'quit_req': None}
     try:
@@ -134,6 +137,15 @@ def c08_shutdown(ti: int, pi: int, d: int, late: int, rep: int) -> bool:
                     with open(cfgpath, 'w') as f_:
                         f_.write(text_.replace('cmd = bgprog', 'cmd = bgprog --v2'))
                     state['pre_req'] = w.send('reloadconfig', waiting=True)
+                elif pre == 'changed_socket':
+                    # the path of a managed unix socket that no watcher uses is edited: reloadconfig closes the old socket and binds a
+                    # new one under the same name; every socket the daemon ever bound must be closed and unlinked at exit
+                    state['old_socks'] = dict(w.arbiter.sockets)
+                    with open(cfgpath) as f_:
+                        text_ = f_.read()
+                    with open(cfgpath, 'w') as f_:
+                        f_.write(text_.replace(os.path.join(tmp, 'aux.sock'), os.path.join(tmp, 'aux2.sock')))
+                    state['pre_req'] = w.send('reloadconfig', waiting=True)
                 elif pre == 'late_socket':
                     # a managed socket is added to a daemon that started without any, by reloadconfig
                     with open(cfgpath, 'a') as f_:
@@ -164,7 +176,7 @@ def c08_shutdown(ti: int, pi: int, d: int, late: int, rep: int) -> bool:
                     w.os_signals.append((w.clock.now + 0.37 + 0.4 * late, deliver))
                     return
                 pre_request()
-                if pre in ('late_socket', 'changed_watcher'):
+                if pre in ('late_socket', 'changed_watcher', 'changed_socket'):
                     w.vloop.call_later(1.0 + 0.1 * late, fire)       # after the reloadconfig has completed
                 elif pre == 'on_demand':
                     w.vloop.call_later(0.75 + 0.4 * late, fire)      # check_delay 1 s: the start begins at the next whole second
@@ -229,7 +241,13 @@ def c08_shutdown(ti: int, pi: int, d: int, late: int, rep: int) -> bool:
                 if s.fileno() != -1:
                     rt.note('managed socket %s left open', n)
                     ok = False
-            for sockfile in ('web.sock', 'late.sock'):
+            for n, s in (state.get('old_socks') or {}).items():
+                if s.fileno() != -1:
+                    rt.note('managed socket %s bound before the reloadconfig left open (fd %d)', n, s.fileno())
+                    ok = False
+            if pre == 'changed_socket' and getattr(arb.sockets.get('aux'), 'path', None) != os.path.join(tmp, 'aux2.sock'):
+                return rt.skip()          # the reloadconfig did not move the socket (refused): nothing to check
+            for sockfile in ('web.sock', 'late.sock', 'aux.sock', 'aux2.sock'):
                 if os.path.exists(os.path.join(tmp, sockfile)):
                     rt.note('unix socket file %s left behind', sockfile)
                     ok = False
